@@ -134,6 +134,7 @@ class _StatsProxy:
 
     def __init__(self):
         self.calls = []
+        self.draws = []
 
     def rv_discrete(self, name=None, values=None, **k):
         xk, pk = values
@@ -146,8 +147,45 @@ class _StatsProxy:
                 for _ in range(int(size)):
                     alts = [(True, int(x)) for x in xk]
                     out.append(path.decide(alts, "rv_discrete draw") if len(alts) > 1 else alts[0][1])
+                proxy.draws.extend(out)
                 return out
         return D()
+
+
+def h_shortcut_sampled(env, n, backend):
+    """empty circuit + initial statevector + n_shots (Backend.simulate shortcut -> _statevector_to_frequencies sampling), on a
+    backend of either statevector order: whatever support point is drawn, the key returned is the key that the exact mode of
+    the same backend gives to the basis state carrying the drawn probability"""
+    from tangelo.linq import Circuit, get_backend
+    import tangelo.linq.target.backend as bk
+    circ = Circuit(n_qubits=n)
+    psi = env.state(n, "psi", normalized=True)
+    if not env.symbolic:
+        with shim.concrete_mode():
+            b = get_backend(backend, n_shots=4000)
+            f, _ = b.simulate(circ, initial_statevector=as_array(env, psi))
+            fe, _ = get_backend(backend).simulate(circ, initial_statevector=as_array(env, psi))
+        for k in set(f) | set(fe):
+            # replay only: 4000 shots, 5 sigma <= 0.04
+            env.check_le(abs(f.get(k, 0.) - fe.get(k, 0.)), 0.04, f"{backend}: sampled frequency of {k} is consistent with the exact frequency of {k}")
+        return
+    mk = (lambda ns: make_backend(env, n_shots=ns)) if backend == "cirq" else (lambda ns: get_backend("sympy", n_shots=ns))
+    fe, _ = mk(None).simulate(circ, initial_statevector=as_array(env, psi))
+    sp = _StatsProxy()
+    old = bk.__dict__["stats"]
+    bk.__dict__["stats"] = sp
+    try:
+        f1, _ = mk(1).simulate(circ, initial_statevector=as_array(env, psi))
+    finally:
+        bk.__dict__["stats"] = old
+    env.check_true(len(sp.calls) == 1 and len(sp.draws) == 1, "sampler called once, one draw")
+    xk, pk = sp.calls[0]
+    env.check_true(len(f1) == 1, "one shot -> one key")
+    key = list(f1)[0]
+    p = pk[xk.index(sp.draws[0])]
+    env.check_true(key in fe, f"{backend}: drawn key {key} is a key of the exact distribution")
+    if key in fe:
+        env.check_eq(p, fe[key], f"{backend}: the drawn support point is reported under the key the exact mode uses for that basis state")
 
 
 def h_sampled(env, spec, n):
@@ -328,6 +366,9 @@ def placements(n, n_t, n_c):
 def shapes(tier, seed):
     rnd = random.Random(seed)
     out = []
+    for be in ("cirq", "sympy"):
+        for nn in ((2,) if tier == "quick" else (2, 3)):
+            out.append(Shape(f"shortcut-sampled/{be}/n{nn}", h_shortcut_sampled, dict(n=nn, backend=be), modules=MODS, max_paths=16))
     n = 3 if tier == "quick" else 4
     maxc = 2 if tier == "quick" else 3
     single = []
